@@ -119,6 +119,42 @@ def compare(chk, prog, text, r, ev, tagset, sigprefix="sem"):
     return True
 
 
+# hand-written programs with the values the reference semantics prescribe (closures, recursion through
+# helpers, higher-order functions, aliasing, nested indexing) - shapes the random generator reaches rarely
+SCENARIOS = [
+    ("fn f(n) { let g = fn() { f(n - 1) }; if n <= 0 { 0 } else { g() + 1 } } push(__o, f(3));", ["3"]),
+    ("fn sum(n, acc) { let step = fn(k) { sum(k, acc + n) }; if n == 0 { acc } else { step(n - 1) } } push(__o, sum(4, 0));", ["10"]),
+    ("fn f(n) { fn h(k) { if k == 0 { 0 } else { f(k - 1) + 1 } } if n == 0 { 100 } else { h(n) } } push(__o, f(2));", ["102"]),
+    ("let fact = fn(n) { if n < 2 { 1 } else { n * fact(n - 1) } }; push(__o, fact(10));", ["3628800"]),
+    ("fn apply(f, x) { f(x) } fn twice(f) { fn(x) { f(f(x)) } } push(__o, apply(twice(fn(x) { x * 3 }), 2));", ["18"]),
+    ("fn compose(f, g) { fn(x) { g(f(x)) } } let inc = fn(x) { x + 1 }; let dbl = fn(x) { x * 2 }; push(__o, compose(inc, dbl)(5)); push(__o, compose(dbl, inc)(5));", ["12", "11"]),
+    ("fn counter() { let c = 0; [fn() { c = c + 1; c }, fn() { c }] } let p = counter(); push(__o, p[0]()); push(__o, p[0]()); push(__o, p[1]());", ["1", "2", "0"]),
+    ("let a = [1, 2, 3]; let b = a; b[0] = 9; push(a, 4); push(__o, a); push(__o, len(b));", ["[9, 2, 3, 4]", "4"]),
+    ("let m = map {\"k\": [1, 2]}; let v = m[\"k\"]; v[1] = 7; push(__o, m[\"k\"][1]); m[\"z\"] = m[\"k\"]; push(__o, len(m));", ["7", "2"]),
+    ("fn f(a, b, c, d, e) { [e, d, c, b, a] } push(__o, f(1, 2, 3, 4, 5));", ["[5, 4, 3, 2, 1]"]),
+    ("fn f(a) { let x = a * 2; let y = x + 1; fn(b) { let z = b + y; fn(c) { a + x + y + z + b + c } } } push(__o, f(1)(10)(100));", ["129"]),
+    ("let r = []; fn walk(n) { if n > 0 { push(r, n); walk(n - 1); push(r, 0 - n); } } walk(3); push(__o, r);", ["[3, 2, 1, -1, -2, -3]"]),
+    ("fn even(n, odd) { if n == 0 { true } else { odd(n - 1, even) } } fn odd(n, even) { if n == 0 { false } else { even(n - 1, odd) } } push(__o, even(10, odd)); push(__o, even(7, odd));", ["true", "false"]),
+    ("let fs = [fn(x) { x + 1 }, fn(x) { x * x }, len]; push(__o, fs[0](4)); push(__o, fs[1](4)); push(__o, fs[2](\"abc\"));", ["5", "16", "3"]),
+    ("fn f(n) { if n == 0 { return 0; } let r = f(n - 1); return r + n; } push(__o, f(20));", ["210"]),
+    ("fn f() { let a = 1; let b = 2; let c = 3; let g = fn() { let d = 4; let h = fn() { a + b + c + d }; h() }; g() } push(__o, f());", ["10"]),
+    ("fn mk(i) { fn() { i } } let fs = [mk(0), mk(1), mk(2)]; push(__o, fs[2]() * 10 + fs[0]()); ", ["20"]),
+    ("let x = 1; fn f() { x = x + 1; x } push(__o, [f(), x, f(), x]);", ["[2, 2, 3, 3]"]),
+    ("fn f(a, b) { a - b } let i = 0; fn n() { i = i + 1; i } push(__o, f(n(), n()));", ["-1"]),
+    ("let i = 0; fn n() { i = i + 1; i } push(__o, n() < n()); push(__o, n() <= n()); push(__o, n() > n());", ["false", "false", "false"]),
+    ("let a = [0, 0]; let i = 0; fn n() { i = i + 1; i } a[n() - 1] = n(); push(__o, a); ", ["[0, 1]"]),
+    ("fn f(n) { let g = fn(k) { if k == 0 { n } else { g(k - 1) } }; g(3) } push(__o, f(42));", ["42"]),
+    ("push(__o, 1 / 0); push(__o, 5);", ["RUNTIME-ERROR"]),
+    ("push(__o, 1); push(__o, [1, 2][2]); push(__o, 3);", ["1", "RUNTIME-ERROR"]),
+    ("fn f(a) { a } push(__o, f(1, 2));", ["RUNTIME-ERROR"]),
+    ("let q = 5; push(__o, q(1));", ["RUNTIME-ERROR"]),
+    ("fn f() { return 1; } return 2;", "compile_error"),
+    ("loop { fn f() { break; } break; }", "compile_error"),
+    ("a: loop { fn f() { break a; } break; }", "compile_error"),
+    ("fn f() { undefined_name } push(__o, 1);", "compile_error"),
+]
+
+
 def run(chk):
     rng = chk.rng
     quick = chk.tier == "quick"
@@ -179,7 +215,28 @@ def run(chk):
         jobs.append(("order", prog, gen.PRELUDE + text, ev))
 
     cases = [Case("p%d" % i, text, {"globals": "__o", "final": 1, "steps": 400000}) for i, (_, _, text, _) in enumerate(jobs)]
+    for i, (text, exp) in enumerate(SCENARIOS):
+        cases.append(Case("s%d" % i, gen.PRELUDE + text, {"globals": "__o", "steps": 400000}))
     res = core.run_cases(cases)
+    for i, (text, exp) in enumerate(SCENARIOS):
+        r = res.get("s%d" % i)
+        if r is None:
+            chk.inconc("missing result")
+            continue
+        oc = r.get("outcome")
+        chk.observed(("scenario", i))
+        if oc == "panic":
+            continue
+        got = [show(x) for x in canon_dump(r["globals"]["__o"])[1]] if "globals" in r else None
+        if exp == "compile_error":
+            ok = oc == "compile_error"
+        elif exp and exp[-1] == "RUNTIME-ERROR":
+            ok = oc == "rt_error" and got == exp[:-1]
+        else:
+            ok = oc == "ok" and got == exp
+        if not ok:
+            chk.violation("scenario|%d" % i, "%s: expected %s, observed %s (%s %s)" % (text, exp, got, oc, r.get("rt") or r.get("diag") or ""),
+                          {"src": text, "expected": exp, "observed": got, "outcome": oc})
     for i, (cls, prog, text, ev) in enumerate(jobs):
         r = res.get("p%d" % i)
         if r is None:
